@@ -324,6 +324,72 @@ pub fn replay(sub: &str, case: &Value) -> Result<(), Fail> {
 }
 
 pub fn fuzz_targets() -> Vec<crate::fuzz::Target> {
-    use crate::fuzz::from_strategy;
-    vec![from_strategy("c11_flow", "C11", "random", hist_random, check_hist)]
+    use crate::fuzz::{U, from_bytes};
+    // the same value classes as `op_random` / `hist_random`
+    fn off(u: &mut U) -> u64 {
+        match u.weighted(&[3, 2, 1]) {
+            0 => u.below(64),
+            1 => u.u64_mix() >> 1,
+            _ => u.below(1 << 20),
+        }
+    }
+    fn hostile(u: &mut U) -> u64 {
+        match u.weighted(&[3, 2, 1]) {
+            0 => u.below(64),
+            1 => u.u64_mix(),
+            _ => u64::MAX,
+        }
+    }
+    fn op(u: &mut U) -> Op {
+        match u.weighted(&[3, 4, 6, 1, 2, 2, 1, 6, 2]) {
+            0 => Op::Sent(off(u)),
+            1 => Op::Push {
+                data_len: u.range(1, 9),
+                overhead: u.below(3) as u8,
+                last: u.bool(),
+                send: u.bool(),
+            },
+            2 => Op::Ack {
+                file: u.below(3) as u32,
+                off: hostile(u),
+            },
+            3 => Op::Advance(u.below(3) as u32),
+            4 => Op::Resume {
+                file: u.below(3) as u32,
+                off: off(u),
+            },
+            5 => Op::ResumeAt { sel: u.u16() },
+            6 => Op::Cancel(u.below(3) as u8),
+            7 => Op::WaitCredit(match u.weighted(&[3, 1, 1]) {
+                0 => u.range(1, 16),
+                1 => u.below(1 << 20),
+                _ => 1 << 48,
+            }),
+            _ => Op::WaitReconnect,
+        }
+    }
+    vec![from_bytes(
+        "c11_flow",
+        "C11",
+        "random",
+        |data: &[u8]| {
+            let mut u = U::new(data);
+            let window = match u.below(3) {
+                0 => 0,
+                1 => u.range(1, 64),
+                _ => u.u64_mix(),
+            };
+            let capacity = match u.below(3) {
+                0 => 0,
+                1 => u.range(1, 64),
+                _ => u.below(4096),
+            };
+            Some(Hist {
+                window,
+                capacity,
+                ops: u.vec(200, op),
+            })
+        },
+        check_hist,
+    )]
 }
